@@ -40,6 +40,8 @@ def main():
             for i in range(a.attempts):
                 vplib.CANCEL.clear()
                 r = vplib.Run(d["variant"], binary, d["args"], cpu=16, timeout=600)
+                if d.get("tsan_rule"):
+                    r.tsan_rule = d["tsan_rule"]
                 vplib.run_all([r], b, tmp, log=log)
                 keys = [v["key"] for v in (r.result or {}).get("violations", [])]
                 if r.outcome == "sanitizer":
